@@ -949,7 +949,9 @@ fn parents(
     // Walk from the key itself down to (and including) the empty key: the empty key is a
     // prefix of every key.
     loop {
-        let entry = get_exact(table, namespace, author, &key, false);
+        // Deletion markers are entries like any other here: a newer marker at the key or at a
+        // prefix of it must supersede an older entry.
+        let entry = get_exact(table, namespace, author, &key, true);
         match entry {
             Err(err) => res.push(Err(err)),
             Ok(Some(entry)) => res.push(Ok(entry)),
